@@ -162,8 +162,30 @@ func IDs(objs []osm.Object) []string {
 			out[i] = "<nil>"
 			continue
 		}
-		id := o.ObjectID()
-		out[i] = fmt.Sprintf("%c%d", string(id.Type())[0], id.Ref())
+		// not through osm.ObjectID: it keeps 40 bits of the id, and its Type()
+		// panics when a negative or larger id has overwritten the type bits
+		switch v := o.(type) {
+		case *osm.Node:
+			if v == nil {
+				out[i] = "<nil node>"
+				continue
+			}
+			out[i] = fmt.Sprintf("n%d", int64(v.ID))
+		case *osm.Way:
+			if v == nil {
+				out[i] = "<nil way>"
+				continue
+			}
+			out[i] = fmt.Sprintf("w%d", int64(v.ID))
+		case *osm.Relation:
+			if v == nil {
+				out[i] = "<nil relation>"
+				continue
+			}
+			out[i] = fmt.Sprintf("r%d", int64(v.ID))
+		default:
+			out[i] = fmt.Sprintf("%T", o)
+		}
 	}
 	return out
 }
